@@ -77,7 +77,48 @@ class Tags:
         return None if f is None else f.subs("STEP", STEP - ONE)
 
     def _name_defs(self, name: str, nid: int):
-        return self.du.reaching(nid, name)
+        return [d for d in self.du.reaching(nid, name) if not self._dead_before_loop(d, nid)]
+
+    def _dead_before_loop(self, d, use: int) -> bool:
+        """A definition made before a `for k in range(..)` loop cannot be the one read at `use`
+        when (i) the use is not executed in the first iteration (it sits under a test that
+        needs k > 0) and (ii) every path through the first iteration redefines the name before
+        the loop comes round: from the second iteration on the in-loop definition is in force."""
+        if d.value is None and d.sel == (("param",),):
+            return False
+        g = self.g
+        for h in g.nodes:
+            if h.kind != "iter" or h.copy_of or not isinstance(h.ast.target, ast.Name):
+                continue
+            it = h.ast.iter
+            if not (isinstance(it, ast.Call) and dotted(it.func) == "range" and len(it.args) == 1):
+                continue
+            key = (h.id, d.name)
+            if not hasattr(self, "_loop_bodies"):
+                self._loop_bodies = {}
+            if h.id not in self._loop_bodies:
+                starts = [b for b, l in g.succ[h.id] if l == "it"]
+                body = g.reachable(starts, edge_ok=lambda a, b, l, hh=h.id: b != hh)
+                self._loop_bodies[h.id] = {n for n in body
+                                           if g.find_path([n], lambda x, hh=h.id: x == hh) is not None}
+            body = self._loop_bodies[h.id]
+            if use not in body or d.node in body or d.node == h.id:
+                continue
+            from oqv import abseval as ae, pathcond as pc
+            lv = h.ast.target.id
+            dec = pc.sign_decider(lambda e, lv=lv: isinstance(e, ast.Name) and e.id == lv, "zero")
+            first = ae.feasible_edges(g, lambda nid, e, dec=dec: ae.UNKNOWN if dec(e) is None else dec(e))
+            starts = [b for b, l in g.succ[h.id] if l == "it"]
+            in_body_defs = {x.node for x in self.du.defs if x.name == d.name and x.node in body}
+            if not in_body_defs:
+                continue
+            runs_first = g.find_path(starts, lambda x: x == use, edge_ok=first) is not None
+            skips = g.find_path([b for b in starts if b not in in_body_defs],
+                                lambda x, hh=h.id: x == hh,
+                                blocked=lambda x: x in in_body_defs, edge_ok=first) is not None
+            if not runs_first and not skips:
+                return True
+        return False
 
     # ---------------------------------------------------------- time / index forms
     def form(self, e: ast.AST, nid: int, depth: int = 0) -> Optional[Poly]:
@@ -212,6 +253,11 @@ class Tags:
                     tags.add(None)
                     continue
                 t = self.state_tag(d.value, d.node, depth + 1)
+                if t is None and not self._in_cycle(d.node) and len(real) > 1:
+                    # set up once before the loop from an input (the initial states): carries
+                    # no step tag and puts no constraint on the tag of the in-loop values
+                    # (that such a value is not used in later iterations is rule F4)
+                    continue
                 if self._crosses_back_edge(d.node, nid):
                     t = self._shift(t)
                 tags.add(t)
@@ -430,6 +476,78 @@ def f2(prog: Program, chk: Check) -> None:
                 rets[0] if rets else None)
 
 
+# --------------------------------------------------------------------- F4
+def f4(prog: Program, chk: Check) -> None:
+    chk.rule("F4", "values carried from one step of compute_dynamics_with_field to the next "
+             "(the states and the field the Heun slope is started from) are renewed in every "
+             "iteration on every path: no path through the loop body skips the update, so the "
+             "'previous' value is never two steps old or frozen at its initial value", floor=2)
+    u = prog.unit("system_dynamics:compute_dynamics_with_field")
+    t = Tags(prog, u)
+    g, du = t.g, t.du
+    chk.saw(u, g)
+    loops = [n for n in g.nodes if n.kind == "iter" and not n.copy_of
+             and isinstance(n.ast.iter, ast.Call) and dotted(n.ast.iter.func) == "range"
+             and len(n.ast.iter.args) == 1
+             and t.form(n.ast.iter.args[0], n.id) in (Poly.sym("N"), Poly.sym("N") + ONE)]
+    if len(loops) != 1:
+        raise AnalysisError("F4: the stepping loop of compute_dynamics_with_field was not found")
+    head = loops[0].id
+    body = g.reachable([b for b, l in g.succ[head] if l == "it"], edge_ok=lambda a, b, l: b != head)
+    body = {n for n in body if g.find_path([n], lambda x: x == head) is not None}
+    names = sorted({d.name for d in du.defs if d.node in body and d.value is not None
+                    and "." not in d.name})
+    from oqv import abseval as ae, pathcond as pc
+    lv = loops[0].ast.target.id if isinstance(loops[0].ast.target, ast.Name) else None
+    dec = pc.sign_decider(lambda e: isinstance(e, ast.Name) and e.id == lv, "pos")
+    later = ae.feasible_edges(g, lambda nid, e: ae.UNKNOWN if dec(e) is None else dec(e))
+    n_carried = 0
+    for name in names:
+        defs = {d.node for d in du.defs if d.name == name and d.node in body}
+        # is the value of a previous iteration read?  (a use reached from the loop head
+        # without passing a definition of this iteration)
+        first_use = None
+        for nid in sorted(body):
+            if nid in defs and not any(isinstance(y, ast.Name) and y.id == name
+                                       and isinstance(y.ctx, ast.Load)
+                                       for y in g.nodes[nid].walk()):
+                continue
+            if any(isinstance(y, ast.Name) and y.id == name and isinstance(y.ctx, ast.Load)
+                   for y in g.nodes[nid].walk()):
+                p = g.find_path([b for b, l in g.succ[head] if l == "it"
+                                 and (b not in defs or b == nid)], lambda x, k=nid: x == k,
+                                blocked=lambda x, k=nid: x in defs and x != k)
+                if p is not None:
+                    first_use = nid
+                    break
+        if first_use is None:
+            continue
+        n_carried += 1
+        # one full iteration that avoids every definition of the name
+        # ... in an iteration after the first one (a branch that is only taken at step 0,
+        # where the value set up before the loop is still the right one, does not count)
+        skip = g.find_path([b for b, l in g.succ[head] if l == "it" and b not in defs],
+                           lambda x: x == head, blocked=lambda x: x in defs, edge_ok=later)
+        chk.add("F4", u, f"carried value `{_carried_role(du, name, body)}` renewed on every path",
+                skip is None,
+                "" if skip is None else
+                "a path through the loop body leaves it untouched: the next step starts from a "
+                "value that is two steps old (or still the initial one)",
+                g.nodes[first_use].ast, path=None if skip is None else
+                g.describe_path(skip, u.loc)[-6:])
+    if n_carried < 2:
+        raise AnalysisError(f"F4: only {n_carried} carried values found in the stepping loop "
+                            f"(states and field expected)")
+
+
+def _carried_role(du: DefUse, name: str, body) -> str:
+    """Name-independent label of a carried local: the origin of its in-loop definition."""
+    for d in du.defs:
+        if d.name == name and d.node in body and d.value is not None and not d.sel:
+            return origin_text(du, d.node, d.value)[:60]
+    return name
+
+
 # --------------------------------------------------------------------- F3
 def f3(prog: Program, chk: Check) -> None:
     chk.rule("F3", "TEMPO and mean-field TEMPO advance their networks only through "
@@ -473,6 +591,7 @@ def run(prog: Program, chk: Check) -> None:
         "confirmed by reading the tensor-network code)",
         "role vocabulary of oqv/roles.py",
     ]
-    f1(prog, chk)
-    f2(prog, chk)
-    f3(prog, chk)
+    chk.call(f1, prog, chk)
+    chk.call(f2, prog, chk)
+    chk.call(f3, prog, chk)
+    chk.call(f4, prog, chk)
